@@ -19,6 +19,7 @@ func init() {
 			{Name: "H_C01_flat_q3", Tier: "quick", What: "3 metrics, d=1, n=3, 5 id-restriction patterns, k, threshold symbolic", Covers: []string{"nonempty-result", "something-left-out"}},
 			{Name: "H_C01_flat_qh", Tier: "quick", What: "histories: l2sq, d=1, n<=2 then <=3 ops from Remove/Flush/Add(fresh), k symbolic", Covers: []string{"nonempty-result", "something-left-out"}},
 			{Name: "H_C01_flat_masks", Tier: "quick", What: "l2sq / cosine, 7 concrete vectors (ids out of insertion order), EVERY subset removed (128 masks), Flush, one more Add (fresh id or update of a removed id), one more removal, second Flush: exact top-k at each of the five points; k over all of int", Covers: []string{"ran"}},
+			{Name: "H_C01_flat_filter_reuse", Tier: "quick", What: "14 concrete vectors, 2 queries, k any int: a search restricted to 10..13 ids (two unknown), then one restricted to 1..7 ids (incl. ascending lists that repeat an id and straddle live ids that are not listed), then a large restriction or none — each answer exact for its own restriction", Covers: []string{"ran"}},
 			{Name: "H_C01_flat_many", Tier: "quick", What: "12 concrete vectors (one removed, optional flush) — more than the builder's default k=10 — concrete query, k over all of int or left at the default, symbolic threshold, optional id restriction: exact top-k oracle ('all eligible ones if k<=0' is only observable above the default)", Covers: []string{"more-than-default-k"}},
 			{Name: "H_C01_flat_dim", Tier: "quick", What: "wrong-dimension add / query, missing query are errors and change nothing", Covers: []string{"ran"}},
 			{Name: "H_C01_flat_t", Tier: "thorough", What: "3 metrics, d=1, n<=2, <=2 ops incl. Add, all filters (d=2 with <=1 op is H_C01_flat_t3)", Covers: []string{"nonempty-result"}},
